@@ -13,11 +13,12 @@ FUNCTIONAL = ["--no-bounds-check", "--no-pointer-check"]
 
 
 def K(prop, oid, harness, crate="tantivy", tiers="qt", timeout=300, title="", functions=(), bounds="",
-      assumes=(), stubs=(), unwindset=(), checks="functional", mem=14, group=None, role=None):
+      assumes=(), stubs=(), unwindset=(), checks="functional", mem=14, group=None, role=None,
+      expected_panics=()):
     OBL.append(dict(engine="K", prop=prop, id="%s/%s" % (prop, oid), harness=harness, crate=crate, tiers=tiers,
                     timeout=timeout, title=title, functions=list(functions), bounds=bounds,
                     assumes=list(assumes), stubs=list(stubs), unwindset=list(unwindset), checks=checks,
-                    mem=mem, group=group, role=role))
+                    mem=mem, group=group, role=role, expected_panics=list(expected_panics)))
 
 
 def M(prop, oid, spec, tiers="qt", title="", functions=(), bounds="", assumes=(), timeout=120, role=None):
